@@ -142,7 +142,7 @@ PROPS = {
         ],
     },
     'C14': {
-        'native': ['c05_', 'c06_'],
+        'native': ['c05_', 'c06_', 'c14_'],
         'units': ['script_btc', 'script_custom', 'reader'],
         'kani_quick': ['btc_is_provable_unspendable_first_byte', 'opcode_class_table', 'custom_read_uint_1', 'custom_read_uint_2', 'custom_read_uint_4'],
         'kani_thorough': [],
@@ -154,6 +154,7 @@ PROPS = {
         ],
     },
     'C01': {
+        'native': ['c01_', 'c12_'],
         'units': ['reader'],
         'kani_quick': ['varuint_read_from_all_prefixes', 'varuint_read_from_short_input', 'reader_header_roundtrip', 'reader_outpoint_roundtrip', 'utils_arr_to_hex_one_byte'],
         'kani_thorough': [],
@@ -166,6 +167,7 @@ PROPS = {
         ],
     },
     'C12': {
+        'native': ['c12_'],
         'units': ['reader'],
         'kani_quick': ['types_coin_parameter_table'],
         'kani_thorough': [],
@@ -175,6 +177,7 @@ PROPS = {
         ],
     },
     'C15': {
+        'native': ['c15_'],
         'units': ['stats'],
         'kani_quick': ['utils_get_mean_exact_len3', 'utils_get_mean_exact_len1_and_empty', 'block_base_reward_halving', 'tx_is_coinbase_predicate'],
         'kani_thorough': [],
